@@ -6,7 +6,7 @@ p = '/repo/' + f
 s = open(p, newline='').read()
 assert s.count(old) == 1, (s.count(old), old)
 open(p, 'w', newline='').write(s.replace(old, new))
-d = subprocess.run(['git', '-C', '/repo', 'diff'], capture_output=True, text=True).stdout
+d = subprocess.run(['git', '-C', '/repo', 'diff'], capture_output=True).stdout      # bytes: keeps CRLF of _util.py
 subprocess.run(['git', '-C', '/repo', 'checkout', '--', '.'], check=True)
-open('/verif/mutants/%s.diff' % name, 'w').write(d)
+open('/verif/mutants/%s.diff' % name, 'wb').write(d)
 print('wrote', name, len(d.splitlines()), 'lines')
